@@ -221,6 +221,112 @@ func main() {
 		}
 	})
 
+	// ---- the slice constructors: ArrayToValidators / EqualWeightValidators over every (ids, weights) list of
+	// length <= 3 from the alphabet (zero weights must not become members, a repeated ID keeps its last weight)
+	{
+		var lists [][]pair
+		var gen func(cur []pair)
+		gen = func(cur []pair) {
+			lists = append(lists, append([]pair{}, cur...))
+			if len(cur) == 3 {
+				return
+			}
+			for _, a := range alpha {
+				gen(append(cur, a))
+			}
+		}
+		gen(nil)
+		c.Parallel(len(lists), func(i int) {
+			l := lists[i]
+			var vids []idx.ValidatorID
+			var ws []pos.Weight
+			final := map[uint32]uint64{}
+			var tot uint64
+			for _, p := range l {
+				vids = append(vids, idx.ValidatorID(p.ID))
+				ws = append(ws, pos.Weight(p.W))
+				final[p.ID] = p.W
+			}
+			ref := refOrder(final)
+			for _, p := range ref {
+				tot += p.W
+			}
+			c.Count("evaluations", 1)
+			if tot > maxTotal {
+				return
+			}
+			var vv *pos.Validators
+			if pv := core.Catch(func() { vv = pos.ArrayToValidators(vids, ws) }); pv != nil {
+				c.Violation("array-constructor-panic", l, "ArrayToValidators(%v) panicked: %v", l, pv)
+				return
+			}
+			if !compare(c, "ArrayToValidators", l, vv, ref) || !compare(c, "ArrayToValidators.Copy", l, vv.Copy(), ref) {
+				return
+			}
+			enc, err := rlp.EncodeToBytes(vv)
+			var dec pos.Validators
+			if err != nil || rlp.DecodeBytes(enc, &dec) != nil || !compare(c, "ArrayToValidators-rlp-decoded", l, &dec, ref) {
+				if err != nil {
+					c.Violation("rlp-encode", l, "encode error %v", err)
+				}
+				return
+			}
+			// equal weights
+			eq := map[uint32]uint64{}
+			for _, p := range l {
+				eq[p.ID] = 3
+			}
+			if len(eq) > 0 {
+				compare(c, "EqualWeightValidators", l, pos.EqualWeightValidators(vids, 3), refOrder(eq))
+			}
+		})
+	}
+
+	// ---- larger sets with many ties (sorting is stable only by construction): 13..40 members, weights from a
+	// 3-value pattern, inserted in several orders; canonical order = descending weight, ascending ID
+	{
+		sizes := []int{12, 13, 14, 20, 33, 40}
+		c.Parallel(len(sizes)*3, func(k int) {
+			n, pat := sizes[k/3], k%3
+			final := map[uint32]uint64{}
+			var idsL []uint32
+			for i := 0; i < n; i++ {
+				id := uint32(1 + (i*7)%n + 100*((i*7)/n))
+				id = uint32(i*3 + 1)
+				w := uint64(1 + []int{i % 3, (i / 2) % 2, (i * 5) % 4}[pat])
+				final[id] = w
+				idsL = append(idsL, id)
+			}
+			ref := refOrder(final)
+			for _, order := range []string{"asc", "desc", "stride"} {
+				b := pos.NewBuilder()
+				for j := 0; j < n; j++ {
+					i := j
+					switch order {
+					case "desc":
+						i = n - 1 - j
+					case "stride":
+						i = (j * 7) % n
+						if n%7 == 0 {
+							i = (j*5 + 3) % n
+						}
+					}
+					b.Set(idx.ValidatorID(idsL[i]), pos.Weight(final[idsL[i]]))
+				}
+				c.Count("evaluations", 1)
+				vv := b.Build()
+				if !compare(c, "large-set/"+order, []pair{{uint32(n), uint64(pat)}}, vv, ref) {
+					return
+				}
+				enc, _ := rlp.EncodeToBytes(vv)
+				var dec pos.Validators
+				if err := rlp.DecodeBytes(enc, &dec); err != nil || !compare(c, "large-set-rlp/"+order, []pair{{uint32(n), uint64(pat)}}, &dec, ref) {
+					return
+				}
+			}
+		})
+	}
+
 	// ---- big builder
 	two := big.NewInt(2)
 	pow := func(k int64) *big.Int { return new(big.Int).Exp(two, big.NewInt(k), nil) }
